@@ -37,6 +37,34 @@ def division_sets(g):
         before_div & before_re, adj
 
 
+def name_role_type(lm, toktype):
+    """token type Lexer.t_ID gives the lexeme of `toktype` right after a
+    PERIOD (with a comment in between)"""
+    methods = lexer_methods(lm)
+    fn = methods.get('t_ID')
+    lexeme = lm.fixed.get(toktype)
+    if fn is None or not lexeme:
+        return toktype
+    out = set()
+    for marker in (None, 'BLOCK_COMMENT'):
+        lexer = mk_lexer_obj(prev=None, cur=tok('PERIOD', '.'), lm=lm)
+        lexer.cur_token_real = lexer.cur_token
+        lexer.valid_prev_token = lexer.cur_token
+        if marker:
+            lexer.prev_token = lexer.cur_token
+            lexer.cur_token = tok(marker, '/*c*/')
+        token = Obj('LexToken', type='ID', value=lexeme, lineno=1, lexpos=2)
+        ev = Evaluator(lm.module, 'Lexer', methods, {})
+        try:
+            ret, _ = ev.call(fn, [token], self_obj=lexer)
+        except Raised:
+            return toktype
+        out.add(ret.type if isinstance(ret, Obj) else toktype)
+    if len(out) != 1:
+        return toktype      # not layout transparent: the keyword type wins
+    return out.pop()
+
+
 def r051(report, g, lm, pm, relex_prev):
     rule = report.rule('R05.1', 'TOKENS_THAT_IMPLY_DIVISON vs grammar '
                        'adjacency (role-split reserved words)', floor=60)
@@ -87,8 +115,14 @@ def r051(report, g, lm, pm, relex_prev):
         # the property-name role of a reserved word: the lexer sees only
         # the token type, so it is served iff the type is in the table
         if nm == 'div':
-            if in_table:
-                rule.ok('%s as property name' % base)
+            # a reserved word is followed by a division only as the
+            # property name of a member expression (`a.typeof / 2`): the
+            # type the lexer gives it there is obtained by evaluating t_ID
+            # after a PERIOD token
+            seen_as = name_role_type(lm, base)
+            if in_table or seen_as in table:
+                rule.ok('%s as property name' % base,
+                        'lexed as %s after `.`' % seen_as)
             else:
                 name_role_conflicts.append(base)
         elif nm is not None:
@@ -263,7 +297,7 @@ def r053(report, g, lm, only_div, only_re, headers, tier='quick'):
         for run in runs:
             ev = Evaluator(lm.module, 'Lexer', methods, {
                 'AutoLexToken': lambda: Obj('AutoLexToken')})
-            lexer = mk_lexer_obj()
+            lexer = mk_lexer_obj(lm=lm)
             # markers inside the context as well: after the first token
             try:
                 feed(ev, methods, lexer, list(ctx) + list(run))
@@ -362,10 +396,10 @@ PEEK_CANDIDATES = ' \t\x0b\x0c\xa0\ufeff\u1680\u180e\u2000\u2001\u2002' \
     '\u3000\u200b\x85a1_$;'
 
 
-def regex_expected_lexer():
+def regex_expected_lexer(lm=None):
     """a lexer state in which a `/` must start a regular expression (start
     of input)"""
-    return mk_lexer_obj()
+    return mk_lexer_obj(lm=lm)
 
 
 def peek_skip_set(lm):
@@ -380,7 +414,7 @@ def peek_skip_set(lm):
     for c in sorted(cands):
         if c in '\n\r\u2028\u2029/':
             continue
-        got = token_path(lm, methods, regex_expected_lexer(), c + '/x')
+        got = token_path(lm, methods, regex_expected_lexer(lm), c + '/x')
         if got == 're':
             skip.append(c)
     if ' ' not in skip:
@@ -431,7 +465,7 @@ def r056(report, lm):
     for c in chars:
         # at the start of input the decision would choose the regex
         # reader; the INITIAL reader is chosen iff the decision is bypassed
-        got = token_path(lm, methods, regex_expected_lexer(),
+        got = token_path(lm, methods, regex_expected_lexer(lm),
                          '/' + c + 'x') == 'div'
         want = c in ('/', '*')
         rule.check(got == want, 'bypass for /%s' % c,
@@ -444,7 +478,7 @@ def r056(report, lm):
                    where='lexers/es5.py:Lexer._token')
     # and every non-`/` character goes to the INITIAL lexer
     for c in ('a', '(', '"', '1'):
-        got = token_path(lm, methods, regex_expected_lexer(), c + '/x')
+        got = token_path(lm, methods, regex_expected_lexer(lm), c + '/x')
         rule.check(got == 'div', 'non-slash %s' % c, 'character %r' % c,
                    'a character other than `/` enters the division/regex '
                    'decision')
